@@ -427,6 +427,12 @@ fn run_inner<K: KeyLike>(case: &Case, prop: Prop, keep_trace: bool, keys: &[u16]
                     let class = if exp.as_ref().map(|e| outs_equal(e, &out)).unwrap_or(false) { "state-mismatch" } else { "result-mismatch" };
                     return Err(vio(prop, i, kind, op, class, first_msg));
                 }
+                if prop == Prop::C14 && kind.has_iters() {
+                    // the iterators are documented to run in recency order: C14's own oracle ties
+                    // them to the list as linked, this ties the list to the recency order the
+                    // policy defines (same reference models as C06 / C08 / C09)
+                    return Err(vio(prop, i, kind, op, "list-not-in-recency-order", format!("the lists the iterators walk are not in the documented (recency) order: {}", first_msg)));
+                }
             }
         }
 
